@@ -10,7 +10,7 @@ import pulsarbat as pb
 from harness.common import float_lit, boollit
 from harness import exact as X
 
-VFILES = ['Gen/GenConsts.v', 'Model/Pol.v', 'Proofs/PolProofs.v', 'Props/C13.v']
+VFILES = ['Gen/GenConsts.v', 'Model/Pol.v', 'Proofs/PolProofs.v', 'Gen/GenPol.v', 'Proofs/PolGen.v', 'Props/C13.v']
 REAL_AX = {'ClassicalDedekindReals.sig_forall_dec', 'ClassicalDedekindReals.sig_not_dec',
            'FunctionalExtensionality.functional_extensionality_dep', 'Classical_Prop.classic'}
 
@@ -192,6 +192,32 @@ def run(ctx):
             meta.append(dict(inp=inp, impl='to_stokes element'))
             items.append(f'chk_int {fx(a)} {float_lit(float(int_d[:, :, 0].reshape(-1)[j]))} {float_lit(ts)}')
             meta.append(dict(inp=inp, impl='to_intensity element'))
+
+        # the conversions are functions of the signal's CURRENT samples and basis label: asked again after the returned Stokes signal was
+        # overwritten, after the samples were scaled in place (by 2: every Stokes parameter times 4, exactly) and after the basis label
+        # was switched, they must answer for what the signal holds now
+        if not dask and rng.random() < 0.6:
+            ctx.count('asked_again_after_a_change')
+            try:
+                st0 = np.array(np.asarray(st.data), copy=True)
+                st *= 0
+                again = np.asarray(z.to_stokes().data)
+                if not np.array_equal(again, st0):
+                    ctx.fail('stokes_changed_after_result_was_overwritten', inp)
+                z *= 2
+                scaled = np.asarray(z.to_stokes().data)
+                if not np.array_equal(scaled, 4 * st0):
+                    ctx.fail('stokes_not_of_current_samples', dict(inp, change='z *= 2'))
+                if not np.array_equal(np.asarray(z.to_intensity().data), 4 * int_d):
+                    ctx.fail('intensity_not_of_current_samples', dict(inp, change='z *= 2'))
+                z.pol_type = 'circular' if basis == 'linear' else 'linear'
+                flipped = np.asarray(z.to_stokes().data)
+                ref = pb.DualPolarizationSignal(np.array(np.asarray(z.data), copy=True), sample_rate=1 * u.MHz, center_freq=1.4 * u.GHz,
+                                                pol_type=z.pol_type).to_stokes()
+                if not np.array_equal(flipped, np.asarray(ref.data)):
+                    ctx.fail('stokes_not_of_current_basis_label', dict(inp, change='pol_type switched'))
+            except Exception as e:
+                ctx.fail('conversion_raised', dict(inp, at='asked again after a change'), impl=repr(e))
 
     res = ctx.run_cases(HEADER, items, shard=max(100, len(items) // 32 + 1))
     if res is None:
